@@ -569,6 +569,10 @@ def plan_optvals(tier, deadline):
     if tier == "quick":
         modes = OPT_MODES[:3]
         pairs = [(v,) for v in vals]
+        # a few number x number pairs (panel geometry x wrapping limits)
+        pairs += [(("width", w), ("wrap-max-lines", m)) for w in ("1", "5", "12", "30")
+                  for m in ("0", "1", "unlimited", "18446744073709551615")]
+        pairs += [(("width", w), ("max-line-length", m)) for w in ("1", "5", "30") for m in ("0", "1", "5")]
     else:
         modes = OPT_MODES
         pairs = [(v,) for v in vals]
@@ -576,6 +580,8 @@ def plan_optvals(tier, deadline):
         nums = [(o, v) for o, vs in NUM_VALUES.items() for v in vs if o in ("width", "tabs", "max-line-length", "wrap-max-lines")]
         others = [v for v in vals if v[0] in FMT_OPTS + SYM_OPTS]
         pairs += [(a, b) for a in others for b in nums]
+        allnums = [(o, v) for o, vs in NUM_VALUES.items() for v in vs]
+        pairs += [(a, b) for i, a in enumerate(allnums) for b in allnums[i + 1:] if a[0] != b[0]]
     tasks = []
     by_caller = {}
     for name, caller, data in OPT_CORPUS:
